@@ -53,6 +53,7 @@ class Report:
         self.explanations = []
         self.spurious_keys = set()
         self.n_replays = 0
+        self.cross = []
         self.max_replays = 6
 
     # ------------------------------------------------------------------
@@ -70,6 +71,10 @@ class Report:
             self.note_ctx(ctx)
         g = {"group": group, "obligations": 0, "discharged": 0, "violated": 0, "inconclusive": 0, "time_s": 0.0}
         for r in recs:
+            for xc in r.get("cross_check", []) or []:
+                self.cross.append(dict(xc, group=group))
+                if not xc.get("agree", True):
+                    self.inconclusive.append({"group": group, "label": xc["label"], "reason": "solver disagreement in cross-check: %s" % xc})
             st = r["status"]
             self.queries["sat" if st == "sat" else "unsat" if st == "unsat" else "unknown"] += 1
             self.solver_s += r.get("time_s", 0.0)
@@ -191,6 +196,8 @@ class Report:
             "groups": self.groups,
             "samples": self.samples or [{"note": "no obligations produced"}],
             "inconclusive": self.inconclusive[:50],
+            "cross_check": {"queries": len(self.cross), "agreeing": sum(1 for x in self.cross if x.get("agree")), "samples": self.cross[:6],
+                            "note": "sampled discharged queries exported with to_smt2() and re-run by /usr/bin/z3 4.8.12 and cvc5 (thorough tier only)"},
             "known_findings_hit": [{"key": h[0], "text": h[1]} for h, v in self.known_hits],
             "violations": [{"key": v["key"], "label": v["label"], "model": v["model"], "replay": v["replay"], "reproduced": v["reproduced"]} for v in real],
         }
